@@ -196,12 +196,30 @@ impl TypeCollector {
     ) -> Vec<EventContext> {
         let type_resolver = analyzer.get_type_resolver();
 
+        // One listener per distinct event name (an event may be emitted from several places),
+        // and one exported function per listener: names that differ only in their separators
+        // ("ev-one" / "ev_one") would otherwise share an identifier
+        let mut seen_event_names = std::collections::HashSet::new();
+        let mut used_function_names: HashMap<String, usize> = HashMap::new();
+
         events
             .iter()
+            .filter(|event| seen_event_names.insert(event.event_name.clone()))
             .map(|event| {
-                EventContext::new(config).from_event_info(event, visitor, &|rust_type: &str| {
-                    type_resolver.borrow_mut().parse_type_structure(rust_type)
-                })
+                let mut context = EventContext::new(config).from_event_info(
+                    event,
+                    visitor,
+                    &|rust_type: &str| type_resolver.borrow_mut().parse_type_structure(rust_type),
+                );
+                let occurrences = used_function_names
+                    .entry(context.ts_function_name.clone())
+                    .or_insert(0);
+                *occurrences += 1;
+                if *occurrences > 1 {
+                    context.ts_function_name =
+                        format!("{}{}", context.ts_function_name, occurrences);
+                }
+                context
             })
             .collect()
     }
